@@ -61,7 +61,7 @@ fn k_scan_edges_2() { scan_edges_contract(2); }
 // @+ desc="scan_edges, same contract, lists of 0 or 1 edge"
 #[kani::proof]
 #[kani::unwind(12)]
-fn k_scan_edges_1() { scan_edges_contract(if kani::any() { 1 } else { 0 }); }
+fn k_scan_edges_1() { scan_edges_contract(1); scan_edges_contract(0); }
 // @ob id=K.scan_edges_4 props=C01 kind=bounded:edges=4 tier=thorough timeout=3000 fns=Rasterizer::scan_edges
 // @+ desc="scan_edges, same contract, lists of exactly 4 edges (self-intersecting / nested shapes: winding sums up to ±4)"
 #[kani::proof]
@@ -171,23 +171,26 @@ fn k_add_edge_line() {
 }
 
 // ------------------------------------------------------------------ list algorithms (C01 #6) -- raw-pointer code, bounded
+/// walks the list and collects each record's identity tag (the `x2` field, which no list algorithm touches):
+/// cheaper for CBMC than pointer-to-integer casts
 fn list_to_array(mut p: Option<NonNull<ActiveEdge>>, out: &mut [usize; 5]) -> usize {
     let mut n = 0;
     let mut guard = 0;
     while let Some(e) = p {
-        if guard >= 5 { return 99; }
-        out[n] = e.as_ptr() as usize;
+        if guard >= 4 { return 99; }
+        out[n] = unsafe { e.as_ref() }.x2 as usize;
         n += 1;
         p = unsafe { e.as_ref() }.next;
         guard += 1;
     }
     n
 }
+fn tag(edges: &mut [ActiveEdge], base: i32) { let mut i = 0; while i < edges.len() { edges[i].x2 = base + i as i32; i += 1; } }
 fn is_sorted(mut p: Option<NonNull<ActiveEdge>>) -> bool {
     let mut ok = true;
     let mut guard = 0;
     while let Some(e) = p {
-        if guard >= 5 { return false; }
+        if guard >= 4 { return false; }
         let e = unsafe { e.as_ref() };
         if let Some(n) = e.next { if e.fullx > unsafe { n.as_ref() }.fullx { ok = false; } }
         p = e.next;
@@ -197,19 +200,21 @@ fn is_sorted(mut p: Option<NonNull<ActiveEdge>>) -> bool {
 }
 fn count_of(arr: &[usize; 5], n: usize, x: usize) -> usize {
     let mut c = 0; let mut i = 0;
-    while i < 5 { if i < n && arr[i] == x { c += 1; } i += 1; }
+    while i < 4 { if i < n && arr[i] == x { c += 1; } i += 1; }
     c
 }
 
-// @ob id=K.sort_edges props=C01 kind=bounded:edges=3 tier=quick timeout=900 fns=Rasterizer::sort_edges
+// @ob id=K.sort_edges props=C01 kind=bounded:edges=3 tier=quick timeout=1800 fns=Rasterizer::sort_edges
 // @+ desc="sort_edges on an active list of 3 edges with symbolic x: the result is a permutation of the same edge records sorted by fullx (no edge lost, duplicated or modified)"
 #[kani::proof]
-#[kani::unwind(8)]
+#[kani::unwind(5)]
+#[kani::solver(minisat)]
 fn k_sort_edges() {
     let mut r = Rasterizer::new(1, 1);
     let xs: [i32; 3] = kani::any();
     let mut edges = [mk_edge(xs[0], 1), mk_edge(xs[1], -1), mk_edge(xs[2], 1)];
-    let addr = [&edges[0] as *const _ as usize, &edges[1] as *const _ as usize, &edges[2] as *const _ as usize];
+    tag(&mut edges, 100);
+    let addr = [100usize, 101, 102];
     r.active_edges = link(&mut edges, 3);
     r.sort_edges();
     let mut out = [0usize; 5];
@@ -235,7 +240,8 @@ fn k_step_edges() {
     let mut edges = [mk_edge(xs[0], 1), mk_edge(xs[1], -1), mk_edge(xs[2], 1)];
     let mut i = 0;
     while i < 3 { edges[i].slope_x = sl[i]; edges[i].y2 = y2[i]; i += 1; }
-    let addr = [&edges[0] as *const _ as usize, &edges[1] as *const _ as usize, &edges[2] as *const _ as usize];
+    tag(&mut edges, 100);
+    let addr = [100usize, 101, 102];
     r.active_edges = link(&mut edges, 3);
     r.cur_y = kani::any();
     kani::assume(r.cur_y >= 0 && r.cur_y < 100000);
@@ -261,7 +267,9 @@ fn insert_contract(na: usize, nn: usize) {
     kani::assume(xs[0] <= xs[1]);
     let mut act = [mk_edge(xs[0], 1), mk_edge(xs[1], -1)];
     let mut new = [mk_edge(xs[2], 1), mk_edge(xs[3], -1)];
-    let addr = [&act[0] as *const _ as usize, &act[1] as *const _ as usize, &new[0] as *const _ as usize, &new[1] as *const _ as usize];
+    tag(&mut act, 100);
+    tag(&mut new, 102);
+    let addr = [100usize, 101, 102, 103];
     r.active_edges = link(&mut act, na);
     r.cur_y = 2;
     r.edge_starts[2] = link(&mut new, nn);
